@@ -113,6 +113,41 @@ def run_real(ops, addr, srv):
     return replies, fail
 
 
+def stubborn_sibling(ctx, sess):
+    """deleting a context ends its workers - every one of them, also when one of them cannot be stopped"""
+    from common import spawn_server
+    from pyworkers.remote_context import RemoteContext
+    from pyworkers.persistent_remote import PersistentRemoteWorker
+    for order in ('stubborn-first', 'stubborn-last'):
+        sess.write_conf(None)
+        srv = spawn_server(('127.0.0.1', 0))
+        try:
+            c = RemoteContext(5, host=srv.addr, target=TG.t_ctx, kwargs={'tag': 'S', 'base': 0})
+            ws = [PersistentRemoteWorker(None, host=srv.addr, context=5, main_path='') for _ in range(3)]
+            bad = ws[0] if order == 'stubborn-first' else ws[-1]
+            good = [w for w in ws if w is not bad]
+            for w in good:
+                watchdog(lambda: w.call(1), 10)
+            bad.enqueue('stubborn')
+            time.sleep(0.4)
+            pids = {id(w): w.pid for w in ws}
+            st, r = watchdog(c.wait, 30)
+            time.sleep(0.5)
+            survivors = [pids[id(w)] for w in good if RP.pid_alive(pids[id(w)])]
+            ctx.case(('stubborn-sibling', order), True, sample={'case': 'context deleted while one of its workers cannot be stopped', 'order': order, 'delete': (st, r), 'well_behaved_survivors': survivors})
+            if st != 'ok':
+                ctx.fail(f'delete-hangs:{order}', f'deleting a context with an unstoppable worker ({order}) did not return within 30 s', {'scenario': 'stubborn-sibling', 'order': order})
+            elif survivors:
+                ctx.fail(f'workers-survive-delete:{order}', f'context deleted (reply {r!r}); its well-behaved workers {survivors} are still running because another worker of the context ({order}) could not be stopped',
+                         {'scenario': 'stubborn-sibling', 'order': order})
+        finally:
+            for p in RP.descendants(srv.pid) + [srv.pid]:
+                try:
+                    os.kill(p, signal.SIGKILL)
+                except Exception:
+                    pass
+
+
 def main(ctx: Ctx):
     ctx.assumptions += [
         'context payloads are abstract in the model (the id); that workers run their context\'s target with its defaults is checked on the real server (tagged targets), through C15\'s top-level patch delivery',
@@ -158,6 +193,7 @@ def main(ctx: Ctx):
                     k = next((j for j in range(min(len(m), len(replies))) if m[j] != replies[j]), min(len(m), len(replies)))
                     ctx.fail(f'reply-differs-from-dictionary:{ops[k][0] if k < len(ops) else "?"}:{replies[k] if k < len(replies) else "missing"}',
                              f'history {" ".join(ops)}: op #{k} ({ops[k] if k < len(ops) else "?"}) replied {replies[k] if k < len(replies) else None}, a dictionary of contexts says {m[k] if k < len(m) else None}', desc)
+        stubborn_sibling(ctx, sess)
     finally:
         sess.close()
 
@@ -165,6 +201,15 @@ def main(ctx: Ctx):
 def replay(case):
     from common import spawn_server
     sess = inject.Session()
+    if case.get('scenario') == 'stubborn-sibling':
+        class C:
+            def case(self, *a, **k): print('observed', k.get('sample'))
+            def fail(self, sig, what, desc): print('FAIL', sig, what)
+        try:
+            stubborn_sibling(C(), sess)
+        finally:
+            sess.close()
+        return
     srv = spawn_server(('127.0.0.1', 0))
     try:
         print(run_real(case['ops'], srv.addr, srv))
